@@ -59,8 +59,8 @@ struct Run {
     kinds: Vec<bool>, // per I/O call: true = read
 }
 
-fn replay(data: &Rc<Vec<u8>>, hist: &[Query], faults: Vec<Fault>, max_chunk: usize) -> Run {
-    let (reader, handle) = new_reader(data.clone(), Policy { faults, max_chunk, ..Default::default() }, 7);
+fn replay(data: &Rc<Vec<u8>>, hist: &[Query], faults: Vec<Fault>, max_chunk: usize, seed: u64) -> Run {
+    let (reader, handle) = new_reader(data.clone(), Policy { faults, max_chunk, ..Default::default() }, seed);
     let mut answers = Vec::with_capacity(hist.len());
     let stream = ElfStream::<AnyEndian, MonReader>::open_stream(reader);
     let open_ok = stream.is_ok();
@@ -214,7 +214,9 @@ fn run(ctx: &mut Ctx, si: usize, _case: u64) {
     // of a range has already been delivered
     let chunk = if ctx.rng.bool() { 0 } else { [3usize, 16, 64][ctx.rng.usize_below(3)] };
     ctx.count(if chunk == 0 { "reader:full-reads" } else { "reader:short-reads" });
-    let clean = replay(&data, &hist, vec![], chunk);
+    // one reader seed per history: the same short-read pattern in every replay, and a different rotation of the error kinds
+    let rseed = ctx.rng.next_u64();
+    let clean = replay(&data, &hist, vec![], chunk, rseed);
     if !clean.open_ok {
         ctx.inconclusive("unmutated generated object does not open as a stream".to_string());
         return;
@@ -246,7 +248,7 @@ fn run(ctx: &mut Ctx, si: usize, _case: u64) {
                         ctx.count("faults-injected");
                         ctx.count(match kind { FaultKind::Error => "fault:error", FaultKind::Eof => "fault:eof", FaultKind::Interrupted => "fault:interrupted" });
                         ctx.count(if permanent { "fault:permanent" } else { "fault:transient" });
-                        let faulty = replay(&data, &hist, vec![f], chunk);
+                        let faulty = replay(&data, &hist, vec![f], chunk, rseed);
                         if faulty.fired.is_empty() && faulty.fired_soft.is_empty() {
                             all_fired = false;
                             ctx.count("faults-not-reached");
@@ -278,7 +280,7 @@ fn run(ctx: &mut Ctx, si: usize, _case: u64) {
                 ctx.count("multi-fault-schedules");
                 ctx.count_n("faults-injected", nf as u64);
                 let desc = format!("schedule {:?}", faults);
-                let faulty = replay(&data, &hist, faults, chunk);
+                let faulty = replay(&data, &hist, faults, chunk, rseed);
                 ctx.count_n("faults-fired", (faulty.fired.len() + faulty.fired_soft.len()) as u64);
                 if faulty.fired.is_empty() && faulty.fired_soft.is_empty() {
                     continue;
